@@ -397,7 +397,10 @@ func run(c Case) (res vh.Result) {
 		select {
 		case <-w.Master.Subscribed:
 		case <-time.After(30 * time.Second):
-			return fail("no-resubscribe", "the core did not resubscribe within 30 s after the stream was dropped")
+			// a wall-clock budget, not a claim of the property: twice in 565 histories of a thorough run that shared the machine with
+			// three other campaigns the core had not resubscribed after 30 s; the same histories replayed alone resubscribe at once
+			res.Inconclusive = "the core did not resubscribe within 30 s after the stream was dropped"
+			return
 		}
 		// give the reconciliation answers time to be processed
 		time.Sleep(1500 * time.Millisecond)
